@@ -2,7 +2,7 @@
 
 import ast
 
-from .. import roles
+from .. import dtypes, roles
 from ..core import AnalysisError
 from ..src import arg_names, calls_in, unparse
 from . import c14
@@ -202,3 +202,6 @@ def run(ctx):
     counter(ctx, m)
     direct(ctx)
     c14.packing(ctx)
+    dtypes.dtype_folds(ctx)
+    # the systems solved in strong form are A.strong_form(): its term (inverse mass matrix of (range, dual) times weak form) is C14's rule
+    c14.homomorphism(ctx)
